@@ -16,7 +16,7 @@ RULE = ('states = quaternions of the alphabet (group elements, lattice non-unit 
 ASSUMPTIONS = ['integer lattice (entries in [-2,2]) non-unit quaternions make the non-unit laws exact in floating point',
                'tolerance 1e-12 absolute on unit operands, 1e-12 relative to the product of norms on non-unit operands',
                'scalar-last vs scalar-first objects are built from the same four numbers in the two orders; normalisation sums in a different order, hence 1e-15 on components and 1e-14 on derived matrices and products rather than bit equality (observed 1.1e-15 on menu entry 2)', 'scalar-last objects are multiplied with Hamilton-ordered right operands, as Quaternion.product documents']
-REQUIRED_CLASSES = ['triples', 'pairs:nonunit', 'inverse:unit', 'inverse:nonunit', 'order:S', 'object-history', 'ownership', 'derived-objects', 'small-batches']
+REQUIRED_CLASSES = ['triples', 'pairs:nonunit', 'inverse:unit', 'inverse:nonunit', 'order:S', 'object-history', 'ownership', 'derived-objects', 'small-batches', 'magnitudes', 'order-pairings']
 TOL = 1e-12
 
 
@@ -349,6 +349,56 @@ def job_derived(ctx, k):
     ctx.sample({'derived': [d[0] for d in derive]})
 
 
+def job_magnitudes(ctx, k):
+    """(1) Operands of very small / very large magnitude (versor=False): every product route returns the Hamilton product to full RELATIVE
+    precision (no component is rounded away).  (2) Every pairing of scalar-first / scalar-last objects: *, @ and product() agree."""
+    Quaternion, O = _lib()
+    base = [np.array([1.0, 2.0, -2.0, 4.0]), A.MENU[k].copy(), np.array([0.0, 3.0, 0.0, 4.0]), A.MENU[(k + 3) % 8].copy(), np.array([0.5, -1.5, 2.5, 1.0])]
+    scales = [(1e-5, 1e-4), (1e-9, 1.0), (1.0, 1e-9), (1e-100, 1e-100), (1e100, 1e-100), (1e-160, 1e5), (1e150, 1e150), (3e-7, 2e-2)]
+    for ip, p0 in enumerate(base):
+        for iq, q0 in enumerate(base):
+            if ip == iq:
+                continue
+            for sp, sq in scales:
+                p, q = p0 * sp, q0 * sq
+                ref = rq.qmul(p0, q0) * (sp * sq) if np.isfinite(sp * sq) and sp * sq != 0 else None
+                if ref is None:
+                    continue
+                sc = float(np.linalg.norm(p0) * np.linalg.norm(q0)) * sp * sq
+                key = f'p#{ip}*{sp:g} q#{iq}*{sq:g} k{k}'
+                P, Qo = Quaternion(p.copy(), versor=False), Quaternion(q.copy(), versor=False)
+                routes = (('product(array)', lambda: P.product(q.copy())), ('product(object)', lambda: P.product(Qo)), ('*', lambda: P * Qo), ('@', lambda: P @ Qo),
+                          ('q_prod', lambda: O.q_prod(p.copy(), q.copy())), ('mult_L @ q', lambda: P.mult_L() @ q), ('mult_R(q) @ p', lambda: Qo.mult_R() @ p))
+                for rn, fn in routes:
+                    ctx.evals += 1
+                    try:
+                        with np.errstate(all='ignore'):
+                            out = np.asarray(fn(), float)
+                    except Exception as ex:
+                        ctx.fail(f'{rn} raises for operands of extreme magnitude', key, repr(ex)[:120], ref); continue
+                    if not (out.shape == (4,) and float(np.abs(out - ref).max()) <= 1e-12 * sc):
+                        ctx.fail(f'{rn} = Hamilton product to full relative precision, whatever the magnitudes of the operands', key, out, ref, 1e-12 * sc)
+            ctx.seen(('magnitudes', ip, iq))
+    ctx.cls('magnitudes')
+    for ip, p0 in enumerate(base[:4]):
+        for iq, q0 in enumerate(base[:4]):
+            for ol in ('H', 'S'):
+                for orr in ('H', 'S'):
+                    for vers in (True, False):
+                        P = Quaternion((p0 if ol == 'H' else np.roll(p0, -1)).copy(), order=ol, versor=vers)
+                        Qo = Quaternion((q0 if orr == 'H' else np.roll(q0, -1)).copy(), order=orr, versor=vers)
+                        key = f'p#{ip} order={ol} q#{iq} order={orr} versor={vers} k{k}'
+                        ctx.evals += 1
+                        try:
+                            a_, b_, c_ = np.asarray(P * Qo, float), np.asarray(P @ Qo, float), np.asarray(P.product(Qo), float)
+                        except Exception as ex:
+                            ctx.fail('operators raise for a storage-order pairing', key, repr(ex)[:120], 'a product'); continue
+                        if not (np.allclose(a_, b_, rtol=0, atol=1e-14 * max(1.0, np.abs(c_).max())) and np.allclose(a_, c_, rtol=0, atol=1e-14 * max(1.0, np.abs(c_).max()))):
+                            ctx.fail('*, @ and product() agree for every pairing of scalar-first / scalar-last operands', key, {'*': a_, '@': b_, 'product': c_}, 'identical')
+    ctx.cls('order-pairings')
+    ctx.sample({'scales': scales})
+
+
 def job_ownership(ctx, k):
     """Objects own their components: building an object never changes the caller's array, later changes of that array never reach the object,
     and a second object built from the same array (whatever its options) leaves the first one as it was."""
@@ -416,6 +466,7 @@ def run(ctx):
         jobs.append(('job_order', (k,)))
         jobs.append(('job_ownership', (k,)))
         jobs.append(('job_derived', (k,)))
+        jobs.append(('job_magnitudes', (k,)))
         jobs.append(('job_object_histories', (k, 4 if ctx.thorough else 3)))
     core.run_jobs(ctx, __name__, jobs)
     ctx.notes['menu_entries'] = ks
